@@ -199,8 +199,30 @@ func runC11(c *fw.Ctx) {
 					})
 				}
 				if !p.failed && derived.Real != nil {
-					c11Set(p, root, genWritePath(c, r, root), model.Ref(derived))
+					at := genWritePath(c, r, root)
+					c11Set(p, root, at, model.Ref(derived))
 					c.Count("derived_lists_in_tree")
+					// overwrite some of its slots through the tree with values of the kind they already hold: only the
+					// addressed slot may change (the other slots and the source list share its element storage)
+					for k := r.Range(1, 3); k > 0 && !p.failed && len(derived.E) > 0; k-- {
+						i := r.Intn(len(derived.E))
+						var v model.Val
+						switch derived.E[i].K {
+						case spec.Int:
+							v = model.Int(derived.E[i].I + 9)
+						case spec.Str:
+							v = model.Str(derived.E[i].S + "!")
+						case spec.Float:
+							v = model.Float(derived.E[i].F + 0.5)
+						case spec.Bool:
+							v = model.Bool(!derived.E[i].B)
+						default:
+							v = scalarVal(r)
+						}
+						if cur, st := model.Resolve(root, at); st == model.Resolved && cur.Ref == derived {
+							c11Set(p, root, at+"#"+strconv.Itoa(i), v)
+						}
+					}
 				}
 			}
 			for w := 0; w < writes && !p.failed; w++ {
